@@ -308,6 +308,85 @@ func main() {
 			}
 		}
 	})
+	// API histories of the polygon builder: vertices added one by one and then as a set (every pre-count 0..6 and
+	// set size 1..5, so that every capacity step of the vertex list is crossed), and Close() on polygons whose last
+	// vertex stores the same numbers as the first (a relative vertex, or a closing arc back to the start)
+	for pre := 0; pre <= 6; pre++ {
+		for k := 1; k <= 5; k++ {
+			pg := sdf.NewPolygon()
+			var want []v2.Vec
+			for i := 0; i < pre; i++ {
+				q := v2.Vec{X: float64(i) + 1, Y: float64(i*i) * 0.5}
+				pg.AddV2(q)
+				want = append(want, q)
+			}
+			var set []v2.Vec
+			for i := 0; i < k; i++ {
+				set = append(set, v2.Vec{X: 10 - float64(i), Y: 20 + float64(i)*3})
+			}
+			pg.AddV2Set(set)
+			want = append(want, set...)
+			got := pg.Vertices()
+			states++
+			same := len(got) == len(want)
+			for i := 0; same && i < len(got); i++ {
+				same = got[i] == want[i]
+			}
+			if !same {
+				c.Violation("Polygon.AddV2Set|vertices-differ-from-those-added", fmt.Sprintf("%d vertices added one by one, then a set of %d: Vertices() = %v, added %v", pre, k, got, want), map[string]any{"added_singly": pre, "set_size": k})
+			}
+		}
+	}
+	{
+		pg := sdf.NewPolygon()
+		pg.Add(2, 1)
+		pg.Add(3, 0).Rel()
+		pg.Add(0, 3).Rel()
+		pg.Add(2, 1).Rel() // the same numbers as the first vertex, but an offset
+		pg.Close()
+		got, want := pg.Vertices(), []v2.Vec{{X: 2, Y: 1}, {X: 5, Y: 1}, {X: 5, Y: 4}, {X: 7, Y: 5}}
+		states++
+		same := len(got) == len(want)
+		for i := 0; same && i < len(got); i++ {
+			same = got[i] == want[i]
+		}
+		if !same {
+			c.Violation("Polygon.Close|relative-last-vertex-with-the-numbers-of-the-first", fmt.Sprintf("(2,1), rel (3,0), rel (0,3), rel (2,1), Close: Vertices() = %v, want %v", got, want), map[string]any{"want": want})
+		}
+		// closing arc: the last vertex is the start point again and carries the arc from (4,3) back to it
+		for _, f := range []int{3, 8} {
+			for _, r := range []float64{5, -5, 2.5 * (1 + 1.0/(1<<20))} {
+				pa := sdf.NewPolygon()
+				pa.Add(0, 0)
+				pa.Add(4, 0)
+				pa.Add(4, 3)
+				pa.Add(0, 0).Arc(r, f)
+				pa.Close()
+				vs := pa.Vertices()
+				states++
+				a, b := v2.Vec{X: 4, Y: 3}, v2.Vec{}
+				d := norm(sub(b, a))
+				sg := 1.0
+				if r < 0 {
+					sg = -1
+				}
+				mid := mul(add(a, b), 0.5)
+				ab := unit(sub(b, a))
+				nrm := v2.Vec{X: ab.Y, Y: -ab.X}
+				h := math.Sqrt(math.Max(0, r*r-d*d/4))
+				ctr := add(mid, mul(nrm, sg*h))
+				on := 0
+				for _, q := range vs {
+					if math.Abs(norm(sub(q, ctr))-math.Abs(r)) <= 1e-9*(1+math.Abs(r)) && norm(sub(q, a)) > 1e-9 && norm(sub(q, b)) > 1e-9 {
+						on++
+					}
+				}
+				if on != f-1 {
+					c.Violation("Polygon.Close|closing-arc-back-to-the-start-point", fmt.Sprintf("(0,0) (4,0) (4,3) (0,0).Arc(%g,%d) Close: %d of the arc's %d interior points are in the outline %v", r, f, on, f-1, vs), map[string]any{"radius": r, "facets": f})
+				}
+			}
+		}
+	}
 	// a smoothed / chamfered corner whose NEXT vertex carries an arc: the arc still runs on the specified circle
 	// through the corner vertex and its own vertex (the fillet is fitted to the first arc facet afterwards)
 	for _, cfgA := range []struct{ a, p, b v2.Vec }{{v2.Vec{}, v2.Vec{X: 4}, v2.Vec{X: 6, Y: 3}}, {v2.Vec{X: -1, Y: 2}, v2.Vec{X: 3, Y: 1}, v2.Vec{X: 3, Y: -4}}, {v2.Vec{X: 0, Y: 5}, v2.Vec{}, v2.Vec{X: 5}}} {
